@@ -35,9 +35,12 @@
 package main
 
 import (
+	"bufio"
 	"bytes"
 	"encoding/json"
 	"fmt"
+	"io"
+	"net"
 	"net/http"
 	"net/http/httptest"
 	"net/url"
@@ -631,31 +634,81 @@ func splitCmds(toks []string) ([]cmdT, error) {
 
 // body renders the POST body; root is nil when the token stream has no tree
 // (empty body).
-func postBody(toks []string) (body string, root *node, err error) {
+// delivery: how a POST reaches the handler.
+//
+//	""        complete body, handler called directly (httptest)
+//	RDERR<p>  handler called directly with a Body that yields the first p% of the bytes, then a read error (p in 0..100)
+//	TCP       complete body over a real TCP connection to an httptest.Server
+//	TCPCL<p>  real TCP: Content-Length = bytes sent + 7, the first p% of the body, then half-close
+//	TCPCH<p>  real TCP: chunked, the first p% of the body as one chunk, no terminating chunk, then half-close
+//	METH<M>   complete body, handler called directly with method M instead of POST
+type delivery struct {
+	mode string
+	pct  int
+	meth string
+}
+
+func (d delivery) fails() bool { return d.mode == "RDERR" || d.mode == "TCPCL" || d.mode == "TCPCH" }
+
+func postBodyD(toks []string) (body string, root *node, d delivery, err error) {
 	trunc, trail, pad := 0, false, false
 	i := 0
 	for ; i < len(toks); i++ {
 		t := toks[i]
-		if strings.HasPrefix(t, "TRUNC") {
+		pctOf := func(pre string) (int, error) {
+			p, err := strconv.Atoi(t[len(pre):])
+			if err != nil || p < 0 || p > 100 || d.mode != "" {
+				return 0, fmt.Errorf("bad %s", pre)
+			}
+			return p, nil
+		}
+		switch {
+		case strings.HasPrefix(t, "TRUNC"):
 			trunc, err = strconv.Atoi(t[5:])
 			if err != nil || trunc < 1 || trunc > 99 {
-				return "", nil, fmt.Errorf("bad TRUNC")
+				return "", nil, d, fmt.Errorf("bad TRUNC")
 			}
-		} else if t == "TRAIL" {
+		case t == "TRAIL":
 			trail = true
-		} else if t == "PAD" {
+		case t == "PAD":
 			pad = true
-		} else {
-			break
+		case strings.HasPrefix(t, "RDERR"):
+			if d.pct, err = pctOf("RDERR"); err != nil {
+				return "", nil, d, err
+			}
+			d.mode = "RDERR"
+		case strings.HasPrefix(t, "TCPCL"):
+			if d.pct, err = pctOf("TCPCL"); err != nil {
+				return "", nil, d, err
+			}
+			d.mode = "TCPCL"
+		case strings.HasPrefix(t, "TCPCH"):
+			if d.pct, err = pctOf("TCPCH"); err != nil {
+				return "", nil, d, err
+			}
+			d.mode = "TCPCH"
+		case t == "TCP":
+			if d.mode != "" {
+				return "", nil, d, fmt.Errorf("two deliveries")
+			}
+			d.mode = "TCP"
+		case strings.HasPrefix(t, "METH"):
+			if d.mode != "" || !isAlpha(t[4:]) || t[4:] == "POST" || t[4:] == "GET" {
+				return "", nil, d, fmt.Errorf("bad METH")
+			}
+			d.mode, d.meth = "METH", t[4:]
+		default:
+			goto tree
 		}
 	}
+tree:
 	p := &parser{t: toks[i:]}
 	root, err = p.node()
 	if err != nil {
-		return "", nil, err
+		return "", nil, d, err
 	}
 	if p.pos != len(p.t) {
-		return "", nil, fmt.Errorf("trailing tokens after tree")
+		return "", nil, d, fmt.Errorf("trailing tokens after tree")
 	}
 	body = root.render()
 	if pad {
@@ -667,7 +720,67 @@ func postBody(toks []string) (body string, root *node, err error) {
 	if trunc > 0 {
 		body = body[:len(body)*trunc/100]
 	}
-	return body, root, nil
+	return body, root, d, nil
+}
+
+func postBody(toks []string) (body string, root *node, err error) {
+	var d delivery
+	body, root, d, err = postBodyD(toks)
+	if err == nil && d.mode != "" {
+		err = fmt.Errorf("delivery modes are only for HTTP scripts")
+	}
+	return
+}
+
+// failingBody yields data, then a read error.
+type failingBody struct {
+	data []byte
+	off  int
+}
+
+func (f *failingBody) Read(p []byte) (int, error) {
+	if f.off >= len(f.data) {
+		return 0, io.ErrUnexpectedEOF
+	}
+	n := copy(p, f.data[f.off:])
+	f.off += n
+	return n, nil
+}
+func (f *failingBody) Close() error { return nil }
+
+// postTCP sends one POST over a real TCP connection and returns the status code (0 = no answer).
+func postTCP(addr string, body string, d delivery) int {
+	conn, err := net.DialTimeout("tcp", addr, 5*time.Second)
+	if err != nil {
+		return 0
+	}
+	defer conn.Close()
+	conn.SetDeadline(time.Now().Add(10 * time.Second))
+	k := len(body) * d.pct / 100
+	head := "POST /configure HTTP/1.1\r\nHost: martian.test\r\nConnection: close\r\n"
+	switch d.mode {
+	case "TCP":
+		fmt.Fprintf(conn, "%sContent-Length: %d\r\n\r\n%s", head, len(body), body)
+	case "TCPCL":
+		fmt.Fprintf(conn, "%sContent-Length: %d\r\n\r\n%s", head, k+7, body[:k])
+	case "TCPCH":
+		fmt.Fprintf(conn, "%sTransfer-Encoding: chunked\r\n\r\n", head)
+		if k > 0 {
+			fmt.Fprintf(conn, "%x\r\n%s\r\n", k, body[:k])
+		}
+	}
+	if d.mode != "TCP" {
+		if tc, ok := conn.(*net.TCPConn); ok {
+			tc.CloseWrite()
+		}
+	}
+	res, err := http.ReadResponse(bufio.NewReader(conn), nil)
+	if err != nil {
+		return 0
+	}
+	io.Copy(io.Discard, res.Body)
+	res.Body.Close()
+	return res.StatusCode
 }
 
 func runScript(in []string) (out []string) {
@@ -695,16 +808,17 @@ func runScript(in []string) (out []string) {
 		body string
 		root *node
 		msg  *msgSpec
+		dlv  delivery
 	}
 	prep := make([]prepared, len(cmds))
 	for i, c := range cmds {
 		switch c.op {
 		case "POST":
-			b, r, err := postBody(c.toks)
-			if err != nil {
+			b, r, d, err := postBodyD(c.toks)
+			if err != nil || (direct && d.mode != "") {
 				return []string{"BADCASE"}
 			}
-			prep[i] = prepared{body: b, root: r}
+			prep[i] = prepared{body: b, root: r, dlv: d}
 		case "MSGq", "MSGs":
 			m, err := parseMsg(c.op == "MSGs", c.toks)
 			if err != nil {
@@ -728,6 +842,7 @@ func runScript(in []string) (out []string) {
 
 	filters := map[string]*node{}
 	mh := martianhttp.NewModifier()
+	var srv *httptest.Server
 	var dres *parse.Result
 	drej := false
 	var bodies []string // indented bodies of all POSTs, by command index ("" for others)
@@ -751,9 +866,31 @@ func runScript(in []string) (out []string) {
 					out = append(out, "ACC")
 				}
 			} else {
-				rec := httptest.NewRecorder()
-				mh.ServeHTTP(rec, httptest.NewRequest("POST", "/configure", strings.NewReader(prep[i].body)))
-				out = append(out, "S"+strconv.Itoa(rec.Code))
+				d := prep[i].dlv
+				code := 0
+				switch d.mode {
+				case "TCP", "TCPCL", "TCPCH":
+					if srv == nil {
+						srv = httptest.NewServer(mh)
+						defer srv.Close()
+					}
+					code = postTCP(srv.Listener.Addr().String(), prep[i].body, d)
+				case "RDERR":
+					rec := httptest.NewRecorder()
+					req := httptest.NewRequest("POST", "/configure", nil)
+					req.Body = &failingBody{data: []byte(prep[i].body[:len(prep[i].body)*d.pct/100])}
+					mh.ServeHTTP(rec, req)
+					code = rec.Code
+				case "METH":
+					rec := httptest.NewRecorder()
+					mh.ServeHTTP(rec, httptest.NewRequest(d.meth, "/configure", strings.NewReader(prep[i].body)))
+					code = rec.Code
+				default:
+					rec := httptest.NewRecorder()
+					mh.ServeHTTP(rec, httptest.NewRequest("POST", "/configure", strings.NewReader(prep[i].body)))
+					code = rec.Code
+				}
+				out = append(out, "S"+strconv.Itoa(code))
 			}
 		case "GET":
 			bodies = append(bodies, "")
@@ -764,11 +901,15 @@ func runScript(in []string) (out []string) {
 			if got == "" {
 				tok = "G-"
 			} else {
-				for j := len(bodies) - 1; j >= 0; j-- {
+				// every POST whose indented body is the one returned (identical bodies may have been posted)
+				var js []string
+				for j := 0; j < len(bodies); j++ {
 					if cmds[j].op == "POST" && bodies[j] == got {
-						tok = "G" + strconv.Itoa(j)
-						break
+						js = append(js, strconv.Itoa(j))
 					}
+				}
+				if len(js) > 0 {
+					tok = "G" + strings.Join(js, "+")
 				}
 			}
 			if rec.Code != 200 {
@@ -1810,6 +1951,92 @@ func main() {
 			}
 		}
 		emit("exh-condition", in)
+	}
+
+	// 9. POST outcome dimension: body read error after k bytes at every
+	// interesting point (nothing read / mid-JSON / exactly a complete valid
+	// configuration), at the handler level and over real TCP (Content-Length
+	// larger than sent + half-close; chunked without terminator), wrong
+	// methods; always with a different configuration active before, probed on
+	// both halves and GET afterwards.
+	after := []string{"MSGq", "MSGs", "GET"}
+	dl := 0
+	for _, mode := range []string{"RDERR", "TCPCL", "TCPCH"} {
+		for _, pct := range []int{0, 1, 37, 50, 99, 100} {
+			for _, variant := range []int{0, 1, 2} {
+				dl++
+				in := []string{"HTTP"}
+				switch variant {
+				case 0: // nothing active before
+				case 1:
+					in = append(in, "POST", "L1.b.0.-")
+				case 2:
+					in = append(in, "POST", "TCP", "F0.- L1.b.0.q L2.b.0.s )")
+					in = strings.Fields(strings.Join(in, " "))
+				}
+				in = append(in, after...)
+				in = append(in, "POST", mode+strconv.Itoa(pct))
+				switch dl % 3 {
+				case 0:
+					in = append(in, "L7.b.0.-")
+				case 1:
+					in = append(in, "PAD", "F1.- L7.b.0.- L8.b.b.- )")
+					in[len(in)-1] = "F1.-"
+					in = append(in, "L7.b.0.-", "L8.b.b.-", ")")
+				default:
+					in = append(in, "R-", "@1", "L7.b.0.q", "@2", "L8.b.0.s", ")")
+				}
+				in = append(in, after...)
+				// and the handler still works afterwards
+				in = append(in, "POST", "L9.b.0.-")
+				in = append(in, after...)
+				emit("exh-delivery", in)
+			}
+		}
+	}
+	for _, m := range []string{"PUT", "DELETE", "HEAD", "PATCH", "OPTIONS", "post", "Get"} {
+		in := []string{"HTTP", "POST", "L1.b.0.-"}
+		in = append(in, after...)
+		in = append(in, "POST", "METH"+m, "L7.b.0.-")
+		in = append(in, after...)
+		emit("exh-delivery", in)
+	}
+	// random: any configuration (valid or not), any delivery, any cut point
+	for k := 0; k < 150*scale; k++ {
+		g := &gen{r: rng.Fork(), cfg: cfg}
+		in := []string{"HTTP"}
+		for i := g.r.Range(2, 5); i > 0; i-- {
+			in = append(in, "POST")
+			g.pBadNode, g.pBadScope, g.started = 0, 0, false
+			pct := []int{0, 100, 100, g.r.Range(1, 99)}[g.r.Intn(4)]
+			switch g.r.Intn(9) {
+			case 0, 1:
+				in = append(in, "RDERR"+strconv.Itoa(pct))
+			case 2:
+				in = append(in, "TCPCL"+strconv.Itoa(pct))
+			case 3:
+				in = append(in, "TCPCH"+strconv.Itoa(pct))
+			case 4:
+				in = append(in, "TCP")
+			case 5:
+				in = append(in, "METH"+[]string{"PUT", "DELETE", "HEAD", "post"}[g.r.Intn(4)])
+			}
+			switch g.r.Intn(8) {
+			case 0:
+				g.pBadNode = 200
+			case 1:
+				in = append(in, "TRAIL")
+			case 2:
+				in = append(in, "PAD")
+			}
+			in = append(in, g.tree(g.r.Range(1, 3), g.r.Range(1, 3))...)
+			in = append(in, g.msg()...)
+			in = append(in, g.msg()...)
+			if g.r.Chance(2, 3) {
+				in = append(in, "GET")
+			}
+		}
+		emit("delivery", in)
 	}
 
 	// 8. stress: atomic replacement seen by concurrent exchanges and GETs
